@@ -54,6 +54,7 @@ class Scheduler:
         self.aborting = False
         self.switches = 0
         self.readers: set = set()       # thread ids whose operations are reads: they must never block or spin
+        self.on_step = None             # optional callback(description) after every completed step (state invariants)
 
     # ---- called from logical threads ---------------------------------------------------
     def point(self, lt: LThread, what: str, blocking: Optional[Tuple] = None, spin: bool = False):
@@ -115,6 +116,8 @@ class Scheduler:
                 self.main_sem.acquire()          # until it reaches its next point or finishes
                 if cur.exc is not None:
                     raise cur.exc
+                if self.on_step is not None:
+                    self.on_step(self.trace[-1])
                 if cur.done and cur.res_step is None:
                     cur.res_step = self.step
         finally:
